@@ -88,7 +88,9 @@ META = {
         "suppression-invariant: an astext() that is only compared (==/!=) with document['title'] of the same root whose first "
         "child it reads (both sides carry the same text in either run), and a len(X) that is only the emptiness guard of "
         "isinstance(X[k], <non-message classes>) in the same `and` (message nodes alone fail the class test as the empty list "
-        "fails the guard)."
+        "fails the guard). Class tests may be written through a shared one-argument class predicate (`lambda n: [not] isinstance(n, K)`, "
+        "a helper defined that way, also in another module; as findall condition, filter() argument, comprehension condition or "
+        "inside all/any), and a pick by next(...) over a child list counts like a subscript."
     ),
     "not_decided": (
         "consumers of rendered content outside the shapes of R8 (e.g. a third-party transform that reads astext() of a title, a "
@@ -2675,6 +2677,72 @@ def _mentions_sm(e: ast.AST) -> bool:
     return any(_sm_class(x) for x in ast.walk(e) if isinstance(x, (ast.Attribute, ast.Name)))
 
 
+def _class_predicate(e: ast.AST, fi: FunctionInfo) -> tuple[ast.expr, bool] | None:
+    """``e`` names (or is) a one-argument predicate ``lambda n: [not] isinstance(n, K)``: -> (K, True if it holds for
+    instances of K).  Shared predicates such as ``_is_body_content`` are read through, also from another module."""
+    body = None
+    param = None
+    if isinstance(e, ast.Lambda) and len(e.args.args) == 1:
+        body, param = e.body, e.args.args[0].arg
+    else:
+        d = dotted(e)
+        h = None
+        if d is not None:
+            h = fi.module.functions.get(d)
+            if h is None and _CORPUS[0] is not None:
+                mod, _, name = fi.module.resolve(d).rpartition(".")
+                mm = _CORPUS[0].modules.get(mod)
+                h = mm.functions.get(name) if mm is not None else None
+        if h is not None and not h.is_lambda:
+            params = [p for p in h.params if p not in ("self", "cls")]
+            rets = [n for n in h.local_nodes() if isinstance(n, ast.Return)]
+            if len(params) == 1 and len(rets) == 1 and rets[0].value is not None:
+                body, param = rets[0].value, params[0]
+    if body is None:
+        return None
+    core, neg = _strip_not(body)
+    if isinstance(core, ast.Call) and dotted(core.func) == "isinstance" and len(core.args) == 2 and _is_name(core.args[0], param):
+        return core.args[1], not neg
+    return None
+
+
+def _selects_messages(e: ast.AST, fi: FunctionInfo) -> bool:
+    """A node class / condition argument of findall/traverse that matches every system_message."""
+    if _sm_class(e):
+        return True
+    if isinstance(e, (ast.Tuple, ast.BinOp)) and _mentions_sm(e) and not isinstance(e, ast.Call):
+        return True
+    p = _class_predicate(e, fi)
+    return p is not None and p[1] and _mentions_sm(p[0])
+
+
+def _class_tests_name_messages(e: ast.AST, fi: FunctionInfo) -> bool:
+    """Some class test inside ``e`` - isinstance(...) or a call of a class predicate - names system_message."""
+    for x in ast.walk(e):
+        if isinstance(x, ast.Call) and dotted(x.func) == "isinstance" and len(x.args) == 2 and _mentions_sm(x.args[1]):
+            return True
+        if isinstance(x, ast.Call) and len(x.args) == 1 and not x.keywords and dotted(x.func) not in (None, "isinstance", "len", "list", "bool"):
+            p = _class_predicate(x.func, fi)
+            if p is not None and _mentions_sm(p[0]):
+                return True
+    return False
+
+
+def _keeps_only_non_messages(cond: ast.expr, var: str | None, fi: FunctionInfo) -> bool:
+    """A filter condition on an element that no system_message passes: ``not isinstance(c, <..system_message..>)``,
+    a predicate defined that way, or ``not P(c)`` with P selecting messages."""
+    core, neg = _strip_not(cond)
+    if isinstance(core, ast.Call) and dotted(core.func) == "isinstance" and len(core.args) == 2 and (var is None or _is_name(core.args[0], var)):
+        return neg and _mentions_sm(core.args[1])
+    if isinstance(core, ast.Call) and len(core.args) == 1 and not core.keywords and (var is None or _is_name(core.args[0], var)):
+        p = _class_predicate(core.func, fi)
+        if p is not None and _mentions_sm(p[0]):
+            return p[1] == neg  # holds-for-instances and negated, or holds-for-non-instances and plain
+    if isinstance(core, ast.BoolOp) and isinstance(core.op, ast.And) and not neg:
+        return any(_keeps_only_non_messages(v, var, fi) for v in core.values)
+    return False
+
+
 def _strips_messages(fi: FunctionInfo, recv_text: str, before: ast.AST) -> bool:
     """Does ``fi`` remove every system_message below ``recv_text`` on all paths to ``before``?
     (``for m in [list(]findall(X)(nodes.system_message)[)]: m.parent.remove(m)`` - directly or through a list bound before)"""
@@ -2694,7 +2762,7 @@ def _strips_messages(fi: FunctionInfo, recv_text: str, before: ast.AST) -> bool:
         if isinstance(it, ast.Name):
             defs = [n for n in fi.local_nodes() if isinstance(n, ast.Assign) and len(n.targets) == 1 and _is_name(n.targets[0], it.id)]
             return len(defs) == 1 and yields_messages(defs[0].value, depth + 1)
-        if isinstance(it, ast.Call) and it.args and _sm_class(it.args[0]):
+        if isinstance(it, ast.Call) and it.args and _selects_messages(it.args[0], fi):
             f = it.func  # findall(X)(cls) / X.findall(cls) / X.traverse(cls)
             if isinstance(f, ast.Call) and f.args and unparse(f.args[0]) == recv_text:
                 return True
@@ -2921,6 +2989,12 @@ def _filtered_children(e: ast.expr, fi: FunctionInfo, depth: int = 0) -> tuple[s
         return unparse(e.value), False
     if isinstance(e, ast.Call) and isinstance(e.func, ast.Name) and e.func.id in ("list", "tuple", "reversed") and e.args:
         return _filtered_children(e.args[0], fi, depth + 1)
+    if isinstance(e, ast.Call) and dotted(e.func) == "filter" and len(e.args) == 2:
+        base, filt = _filtered_children(e.args[1], fi, depth + 1)
+        if base is None:
+            return None, False
+        p = _class_predicate(e.args[0], fi)
+        return base, filt or (p is not None and not p[1] and _mentions_sm(p[0]))
     if isinstance(e, (ast.ListComp, ast.GeneratorExp)) and len(e.generators) == 1:
         g = e.generators[0]
         base, filt = _filtered_children(g.iter, fi, depth + 1)
@@ -2928,8 +3002,7 @@ def _filtered_children(e: ast.expr, fi: FunctionInfo, depth: int = 0) -> tuple[s
             return None, False
         if isinstance(e.elt, ast.Name) and isinstance(g.target, ast.Name) and e.elt.id == g.target.id:
             for c in g.ifs:
-                core, neg = _strip_not(c)
-                if neg and isinstance(core, ast.Call) and dotted(core.func) == "isinstance" and len(core.args) == 2 and _mentions_sm(core.args[1]):
+                if _keeps_only_non_messages(c, g.target.id, fi):
                     filt = True
             return base, filt
         return None, False
@@ -3023,15 +3096,25 @@ def r8_messages_are_not_content(corpus: Corpus, rep: Report, tier: str):
             subject = None  # (expression enumerating children, how it is used)
             if isinstance(n, ast.Call) and dotted(n.func) == "len" and len(n.args) == 1:
                 subject = (n.args[0], "is counted")
-            elif isinstance(n, ast.Call) and dotted(n.func) in ("all", "any") and len(n.args) == 1 and isinstance(n.args[0], (ast.GeneratorExp, ast.ListComp)) and len(n.args[0].generators) == 1 and any(isinstance(x, ast.Call) and dotted(x.func) == "isinstance" for x in ast.walk(n.args[0].elt)):
+            elif isinstance(n, ast.Call) and dotted(n.func) in ("all", "any") and len(n.args) == 1 and isinstance(n.args[0], (ast.GeneratorExp, ast.ListComp)) and len(n.args[0].generators) == 1 and any(isinstance(x, ast.Call) and (dotted(x.func) == "isinstance" or (len(x.args) == 1 and _class_predicate(x.func, fi) is not None)) for x in ast.walk(n.args[0].elt)):
                 g = n.args[0].generators[0]
-                if any(isinstance(x, ast.Call) and dotted(x.func) == "isinstance" and len(x.args) == 2 and _mentions_sm(x.args[1]) for x in ast.walk(n.args[0])):
-                    continue  # the classification names system_message itself
+                if _class_tests_name_messages(n.args[0], fi):
+                    continue  # the classification names system_message itself (directly or through a shared class predicate)
                 subject = (g.iter, "is classified by node class")
             elif isinstance(n, ast.Assign) and len(n.targets) == 1 and isinstance(n.targets[0], (ast.Tuple, ast.List)):
                 subject = (n.value, "is unpacked into a fixed number of items")
             elif isinstance(n, ast.Subscript) and isinstance(n.ctx, ast.Load) and not isinstance(n.slice, ast.Slice) and isinstance(parent(n), ast.Call) and dotted(parent(n).func) == "isinstance":
                 subject = (n.value, "has an item picked by position and classified")
+            elif isinstance(n, ast.Call) and dotted(n.func) == "next" and n.args:
+                # last = next(filter(P, reversed(X.children)), None) ... isinstance(last, K): the same pick, spelled with next()
+                pa = parent(n)
+                tested = isinstance(pa, ast.Call) and dotted(pa.func) == "isinstance"
+                if isinstance(pa, ast.Assign) and len(pa.targets) == 1 and isinstance(pa.targets[0], ast.Name):
+                    v = pa.targets[0].id
+                    tested = any(isinstance(x, ast.Call) and dotted(x.func) == "isinstance" and x.args and _is_name(x.args[0], v) for x in fi.local_nodes())
+                if tested:
+                    it0 = n.args[0].args[0] if isinstance(n.args[0], ast.Call) and dotted(n.args[0].func) == "iter" and n.args[0].args else n.args[0]
+                    subject = (it0, "has an item picked by position and classified")
             if subject is None:
                 continue
             expr, how = subject
